@@ -24,6 +24,10 @@ DEFAULTS = dict(cls=None, sections=True, maxsec=8, lists=True, tables=True, math
                 depth=3, blocks=(1, 4), parts=False, eqnarray=False, cite=False, fonts=True, star=True)
 
 
+HOSTILE_LABELS = ['index', 'a', 'b', 'c', 'all', 'sect0001', 'sect0002', 'sect0003', 's1', 's2', 'f001', 'f002', 'x1', 'x2', 'job-001', 'job-002',
+                  'dup:1', 'dup 1', 'dup_1', 'dup-1', 'dup;1', 'index.html', 'Index', 'sect0002.html']
+
+
 class G(object):
     def __init__(self, r, **opts):
         self.r = r
@@ -45,6 +49,11 @@ class G(object):
     def newlabel(self, kind):
         self.nlabel += 1
         name = '%s:%s%d' % (kind, self.r.choice(['a', 'b', 'x-', 'l']), self.nlabel)
+        if self.o.get('hostile_labels') and kind == 'sec' and self.r.random() < self.o['hostile_labels']:
+            # labels that collide with static template names, with numbered names, or with each other once forbidden characters are replaced
+            free = [x for x in (self.o.get('hostile_pool') or HOSTILE_LABELS) if x not in self.labels]
+            if free:
+                name = self.r.choice(free)
         self.labels.append(name)
         return name
 
